@@ -470,6 +470,8 @@ class C04Signals(Machine):
                           where="read")
         new = SlotModel("X", tv[0], ma.vtype if vtype is None else vtype, values=tv[1])
         new.max_span = max(new.max_span, ma.max_span)
+        # slack inherited from cancelling operands stays with the lineage
+        new.abs_tol = ma.abs_tol
         return new
 
     def _op_filter(self, op):
@@ -770,7 +772,7 @@ class C04Signals(Machine):
                 delta = 0.25 * step * (1 if op["val"] >= 0 else -1)
             else:
                 delta = op["val"]
-            if np.asarray(ma.times).dtype.kind in "iu":
+            if np.asarray(a.times).dtype.kind in "iu" or np.asarray(ma.times).dtype.kind in "iu":
                 raise Skip("integer grid")
             a.times[i] += delta
             ma.times = np.array(ma.times, dtype=float)
